@@ -481,6 +481,14 @@ fn gen_value_for(rng: &mut Rng, p: &ValParser) -> String {
     match p {
         ValParser::I64 { lo, hi } => rng.range(*lo, *hi).to_string(),
         ValParser::U16 => rng.below(65536).to_string(),
+        ValParser::Int { w, range } => {
+            let (lo, hi) = w.language(*range);
+            if lo > hi {
+                "0".to_string()
+            } else {
+                (*rng.pick(&[lo, hi, lo.max(0).min(hi)])).to_string()
+            }
+        }
         ValParser::Bool => (*rng.pick(&["true", "false"])).to_string(),
         ValParser::Boolish => (*rng.pick(&["yes", "no", "on", "off", "1", "0", "true", "false"])).to_string(),
         ValParser::Possible(pvs) => rng.pick(pvs).name.clone(),
@@ -502,7 +510,23 @@ fn gen_parser(rng: &mut Rng, cfg: &GenCfg, sw: &Swarm, n: usize) -> ValParser {
             let hi = *rng.pick(&[5i64, 10, 127, 255, i64::MAX, 65535]);
             ValParser::I64 { lo, hi }
         }
-        2 => ValParser::U16,
+        2 => {
+            if rng.coin() {
+                ValParser::U16
+            } else {
+                let w = *rng.pick(&[IntW::I8, IntW::I16, IntW::I32, IntW::U8, IntW::U32, IntW::U64]);
+                let range = if rng.coin() {
+                    None
+                } else {
+                    let lo = *rng.pick(&[-200i64, -129, -128, -1, 0, 1, 100]);
+                    let hi = *rng.pick(&[100i64, 127, 128, 255, 256, 70000, i64::MAX]);
+                    Some((lo, hi.max(lo)))
+                };
+                // a declared range must intersect the type (clap asserts that when the parser is built)
+                let (a, b) = w.language(range);
+                ValParser::Int { w, range: if a <= b { range } else { None } }
+            }
+        }
         3 => ValParser::Bool,
         4 => ValParser::Boolish,
         5 | 6 => {
@@ -946,6 +970,17 @@ pub fn value_token(rng: &mut Rng, a: &ArgSpec) -> String {
             _ => rng.range((*lo).max(-1000), (*hi).min(1000)).to_string(),
         },
         ValParser::U16 => (*rng.pick(&["0", "65535", "65536", "-1", "12", "x", "1e3"])).to_string(),
+        ValParser::Int { w, range } => {
+            let (lo, hi) = w.language(*range);
+            match rng.below(8) {
+                0 => (lo - 1).to_string(),
+                1 => (hi + 1).to_string(),
+                2 => "x".into(),
+                3 => lo.to_string(),
+                4 => hi.to_string(),
+                _ => lo.max(-3).min(hi).to_string(),
+            }
+        }
         ValParser::Bool => (*rng.pick(&["true", "false", "TRUE", "1", "yes", ""])).to_string(),
         ValParser::Boolish => (*rng.pick(&["yes", "no", "on", "off", "1", "0", "true", "false", "maybe", "Y"])).to_string(),
         ValParser::Possible(pvs) => {
